@@ -60,6 +60,7 @@ char const* const prelude = R"(
 #include <type_traits>
 #include "c15_zoo.hpp"
 template <typename T> struct probe_box { };
+template <typename T> struct probe_boom { static_assert(sizeof(T) == 0, "instantiated"); static constexpr bool value = true; };
 inline constexpr std::intmax_t IMAX = INTMAX_MAX;
 inline constexpr std::intmax_t B31 = std::intmax_t(1) << 31;
 inline constexpr std::intmax_t B32 = std::intmax_t(1) << 32;
@@ -106,6 +107,35 @@ Cc compile(std::string const& tag, std::string const& body, std::string& first_e
     Cc c = Cc::infra;
     for (int attempt = 0; attempt < 4 && c == Cc::infra; ++attempt) { c = compile_once(tag + "_" + std::to_string(attempt), body, first_error); }
     return c;
+}
+
+/// Round 2: a long generated probe list is first compiled as ONE snippet holding every `static_assert(etl == std)`.
+/// If that compiles, every cell of the list agrees (one compiler run instead of hundreds); if not, the list goes
+/// through the cell-by-cell staging of run_probes, which names the failing cells.
+void run_probes(mc::Reporter& r, std::string const& job, std::vector<Probe> const& probes);
+void run_probes_batched(mc::Reporter& r, std::string const& job, std::vector<Probe> const& all)
+{
+    std::vector<Probe> probes;
+    for (auto const& p : all) {
+        if (r.want(p.subject)) { probes.push_back(p); }
+    }
+    if (probes.empty()) { return; }
+    std::string body;
+    for (auto const& p : probes) { body += "static_assert(" + p.equal_expr + ");\n"; }
+    std::string err;
+    Cc const a = compile(job + "_batch_" + std::to_string(int(getpid())), body, err);
+    if (a == Cc::ok) {
+        r.count("probes", probes.size());
+        r.count("batched_probes", probes.size());
+        r.count("evaluations", probes.size());
+        r.count("distinct_nontrivial", probes.size());
+        for (auto const& p : probes) { r.outcome(mc::hash_str(p.subject + p.kase)); }
+        r.sample("probe batch " + job + ": " + std::to_string(probes.size()) + " cells compile and agree with std, e.g. " + probes.front().subject + " with "
+                 + probes.front().kase);
+        return;
+    }
+    r.note("probe batch " + job + " did not compile as a whole (" + err + "): probing cell by cell");
+    run_probes(r, job, probes);
 }
 
 void run_probes(mc::Reporter& r, std::string const& job, std::vector<Probe> const& probes)
@@ -292,6 +322,43 @@ std::vector<Probe> probes_common_type()
         P_TYPE1(common_type, void() &),
     };
 }
+// round 2: conjunction / disjunction must not instantiate the operands after the deciding one ([meta.logical]/3, /8):
+// Boom<T>::value is a hard error when instantiated, zoo::Incomplete has no ::value at all.  Cells are snippets because
+// a library that does instantiate them cannot be a table entry.
+std::vector<Probe> probes_logic()
+{
+    auto mk = [](char const* subject, char const* cls, std::string const& args) {
+        std::string const e = std::string("etl::") + subject + "<" + args + ">::value";
+        std::string const s = std::string("std::") + subject + "<" + args + ">::value";
+        return Probe{std::string(subject) + "<B...>::value", cls, "<" + args + ">", "((" + e + ") == (" + s + "))", e, s};
+    };
+    auto mkv = [](char const* subject, char const* cls, std::string const& args) {
+        std::string const e = std::string("etl::") + subject + "_v<" + args + ">";
+        std::string const s = std::string("std::") + subject + "_v<" + args + ">";
+        return Probe{std::string(subject) + "_v<B...>", cls, "<" + args + ">", "((" + e + ") == (" + s + "))", e, s};
+    };
+    auto base = [](char const* subject, char const* cls, std::string const& args, std::string const& expected) {
+        std::string const e = std::string("std::is_base_of_v<") + expected + ", etl::" + subject + "<" + args + ">>";
+        std::string const s = std::string("std::is_base_of_v<") + expected + ", std::" + subject + "<" + args + ">>";
+        return Probe{std::string(subject) + "<B...> derives from the deciding operand", cls, "<" + args + ">", "((" + e + ") == (" + s + "))", e, s};
+    };
+    return {
+        mk("conjunction", "later_operand_ill_formed", "std::false_type, probe_boom<int>"),
+        mk("conjunction", "later_operand_ill_formed", "std::true_type, std::false_type, probe_boom<int>"),
+        mk("conjunction", "later_operand_incomplete", "std::false_type, zoo::Incomplete"),
+        mk("conjunction", "later_operand_ill_formed", "std::integral_constant<int, 0>, probe_boom<int>, probe_boom<long>"),
+        mkv("conjunction", "later_operand_ill_formed", "std::false_type, probe_boom<int>"),
+        mkv("conjunction", "later_operand_incomplete", "std::true_type, std::false_type, zoo::Incomplete"),
+        mk("disjunction", "later_operand_ill_formed", "std::true_type, probe_boom<int>"),
+        mk("disjunction", "later_operand_ill_formed", "std::false_type, std::true_type, probe_boom<int>"),
+        mk("disjunction", "later_operand_incomplete", "std::true_type, zoo::Incomplete"),
+        mk("disjunction", "later_operand_ill_formed", "std::integral_constant<int, 2>, probe_boom<int>, probe_boom<long>"),
+        mkv("disjunction", "later_operand_ill_formed", "std::true_type, probe_boom<int>"),
+        mkv("disjunction", "later_operand_incomplete", "std::false_type, std::true_type, zoo::Incomplete"),
+        base("conjunction", "later_operand_ill_formed", "std::integral_constant<int, 0>, probe_boom<int>", "std::integral_constant<int, 0>"),
+        base("disjunction", "later_operand_ill_formed", "std::integral_constant<int, 2>, probe_boom<int>", "std::integral_constant<int, 2>"),
+    };
+}
 std::vector<Probe> probes_ratio_arith()
 {
     return {
@@ -330,12 +397,136 @@ std::vector<Probe> probes_ratio_cmp()
     return v;
 }
 
+// ---------------------------------------------------------------------------------- round 2: generated ratio grid
+// Every ordered pair of a grid of ratios at and near the limits of intmax_t (where the naive cross-multiplications of
+// the table harness overflow).  The arithmetic probes are restricted to pairs whose exact result (computed here with
+// 128-bit integers) is representable: the standard requires those to be well-formed; a pair that std nevertheless
+// rejects is recognised by stage B of run_probes and skipped.  The six comparisons are well-formed for every pair.
+struct GridRatio {
+    char const* num; // spelled with the constants of the prelude
+    char const* den;
+    __int128 n, d;
+};
+__int128 gcd128(__int128 a, __int128 b)
+{
+    if (a < 0) { a = -a; }
+    if (b < 0) { b = -b; }
+    while (b != 0) {
+        auto const t = a % b;
+        a            = b;
+        b            = t;
+    }
+    return a;
+}
+std::vector<GridRatio> ratio_grid(bool thorough)
+{
+    constexpr __int128 imax = INTMAX_MAX;
+    constexpr __int128 b31 = __int128(1) << 31, b32 = __int128(1) << 32, b62 = __int128(1) << 62;
+    std::vector<GridRatio> g = {{"IMAX", "1", imax, 1}, {"-IMAX", "1", -imax, 1}, {"1", "IMAX", 1, imax}, {"IMAX", "2", imax, 2}, {"IMAX - 1", "IMAX", imax - 1, imax},
+        {"B62", "3", b62, 3}, {"-3", "B62", -3, b62}, {"B32", "B31 - 1", b32, b31 - 1}};
+    if (thorough) {
+        std::vector<GridRatio> const more = {{"-1", "IMAX", -1, imax}, {"IMAX", "IMAX - 1", imax, imax - 1}, {"-B62", "7", -b62, 7}, {"1", "B62", 1, b62},
+            {"B31 * 3", "-B32", b31 * 3, -b32}, {"IMAX", "-3", imax, -3}, {"B62 + 1", "B62 - 1", b62 + 1, b62 - 1}, {"-B32 * 5", "B31 * 7", -b32 * 5, b31 * 7},
+            {"0", "IMAX", 0, imax}, {"2", "3", 2, 3}, {"1", "4 * (B31 - 1)", 1, 4 * (b31 - 1)}, {"1", "4 * (B31 + 1)", 1, 4 * (b31 + 1)}};
+        g.insert(g.end(), more.begin(), more.end());
+    }
+    return g;
+}
+bool representable(__int128 n, __int128 d)
+{
+    constexpr __int128 imax = INTMAX_MAX;
+    if (d == 0) { return false; }
+    auto const g = gcd128(n, d);
+    if (g != 0) {
+        n /= g;
+        d /= g;
+    }
+    if (d < 0) {
+        n = -n;
+        d = -d;
+    }
+    return n >= -imax && n <= imax && d <= imax;
+}
+std::string ratio_text(char const* lib, GridRatio const& x) { return std::string(lib) + "::ratio<" + x.num + ", " + x.den + ">"; }
+std::vector<Probe> probes_ratio_grid_arith(char const* op, bool thorough, std::size_t& left_out)
+{
+    std::vector<Probe> v;
+    auto const g = ratio_grid(thorough);
+    for (auto const& a : g) {
+        for (auto const& b : g) {
+            // reduced operands (ratio<N,D> itself normalises)
+            auto const ga = gcd128(a.n, a.d), gb = gcd128(b.n, b.d);
+            __int128 an = a.n / ga, ad = a.d / ga, bn = b.n / gb, bd = b.d / gb;
+            __int128 rn = 0, rd = 1;
+            std::string const o = op;
+            if (o == "ratio_add") {
+                rn = an * bd + bn * ad;
+                rd = ad * bd;
+            } else if (o == "ratio_subtract") {
+                rn = an * bd - bn * ad;
+                rd = ad * bd;
+            } else if (o == "ratio_multiply") {
+                rn = an * bn;
+                rd = ad * bd;
+            } else {
+                if (bn == 0) { continue; }
+                rn = an * bd;
+                rd = ad * bn;
+            }
+            if (!representable(rn, rd)) { continue; }
+            // add / subtract: only pairs for which every term and the sum of the least-common-denominator formula
+            // n1*(d2/g) +- n2*(d1/g), d1*(d2/g) fit intmax_t.  Pairs whose reduced result is representable but whose
+            // partial products are not need double-width arithmetic: [ratio.arithmetic]/2 only RECOMMENDS ("should")
+            // correct values there, and libstdc++ 12 itself rejects some of them (ratio_add<ratio<IMAX,2>, ratio<IMAX,-3>>,
+            // ratio_subtract<ratio<IMAX,1>, ratio<IMAX,2>>) while accepting others that etl rejects
+            // (ratio_add<ratio<-IMAX,1>, ratio<IMAX,2>>): quality of implementation on both sides, not judged.
+            {
+                auto const fits = [](__int128 x) { return x >= -__int128(INTMAX_MAX) && x <= __int128(INTMAX_MAX); };
+                if (o == "ratio_add" || o == "ratio_subtract") {
+                    auto const g      = gcd128(ad, bd);
+                    auto const t1     = an * (bd / g);
+                    auto const t2     = bn * (ad / g);
+                    bool const lcd_ok = fits(t1) && fits(t2) && fits(ad * (bd / g)) && fits(o == "ratio_add" ? t1 + t2 : t1 - t2);
+                    if (!lcd_ok) {
+                        ++left_out;
+                        continue;
+                    }
+                }
+            }
+            std::string const e = std::string("etl::") + op + "<" + ratio_text("etl", a) + ", " + ratio_text("etl", b) + ">";
+            std::string const s = std::string("std::") + op + "<" + ratio_text("std", a) + ", " + ratio_text("std", b) + ">";
+            v.push_back(Probe{std::string(op) + "<R1,R2>::num,den", "near_overflow",
+                std::string("<ratio<") + a.num + "," + a.den + ">, ratio<" + b.num + "," + b.den + ">>",
+                "(" + e + "::num == " + s + "::num && " + e + "::den == " + s + "::den && " + e + "::type::num == " + s + "::type::num && std::is_same_v<" + e
+                    + ", etl::ratio<" + e + "::num, " + e + "::den>>)",
+                e + "::num + " + e + "::den", s + "::num + " + s + "::den"});
+        }
+    }
+    return v;
+}
+std::vector<Probe> probes_ratio_grid_cmp(char const* op, bool thorough)
+{
+    std::vector<Probe> v;
+    auto const g = ratio_grid(thorough);
+    for (auto const& a : g) {
+        for (auto const& b : g) {
+            std::string const e = std::string("etl::") + op + "_v<" + ratio_text("etl", a) + ", " + ratio_text("etl", b) + ">";
+            std::string const s = std::string("std::") + op + "_v<" + ratio_text("std", a) + ", " + ratio_text("std", b) + ">";
+            std::string const e2 = std::string("etl::") + op + "<" + ratio_text("etl", a) + ", " + ratio_text("etl", b) + ">::value";
+            v.push_back(Probe{std::string(op) + "_v<R1,R2>", "near_overflow", std::string("<ratio<") + a.num + "," + a.den + ">, ratio<" + b.num + "," + b.den + ">>",
+                "((" + e + ") == (" + s + ") && (" + e2 + ") == (" + s + "))", e, s});
+        }
+    }
+    return v;
+}
+
 } // namespace
 
 int main(int argc, char** argv)
 {
     mc::Main m(argc, argv);
     m.job("probe-class-traits", {"quick", "thorough"}, [](mc::Reporter& r) { run_probes(r, "class", probes_class_traits()); });
+    m.job("probe-logic-short-circuit", {"quick", "thorough"}, [](mc::Reporter& r) { run_probes(r, "logic", probes_logic()); });
     m.job("probe-swap", {"quick", "thorough"}, [](mc::Reporter& r) { run_probes(r, "swap", probes_swap()); });
     m.job("probe-transform-signed", {"quick", "thorough"}, [](mc::Reporter& r) {
         auto all = probes_transform();
@@ -348,5 +539,19 @@ int main(int argc, char** argv)
     });
     m.job("probe-ratio-arithmetic", {"quick", "thorough"}, [](mc::Reporter& r) { run_probes(r, "rar", probes_ratio_arith()); });
     m.job("probe-ratio-compare", {"quick", "thorough"}, [](mc::Reporter& r) { run_probes(r, "rcmp", probes_ratio_cmp()); });
+    for (char const* op : {"ratio_add", "ratio_subtract", "ratio_multiply", "ratio_divide"}) {
+        m.job(std::string("probe-ratio-grid/") + op, {"quick", "thorough"},
+            [op](mc::Reporter& r) {
+                std::size_t left_out = 0;
+                auto const probes    = probes_ratio_grid_arith(op, r.thorough(), left_out);
+                r.count("skipped_double_width_needed", left_out);
+                run_probes_batched(r, std::string("rg_") + op, probes);
+            });
+    }
+    m.job("probe-ratio-grid/compare", {"quick", "thorough"}, [](mc::Reporter& r) {
+        for (char const* op : {"ratio_equal", "ratio_not_equal", "ratio_less", "ratio_less_equal", "ratio_greater", "ratio_greater_equal"}) {
+            run_probes_batched(r, std::string("rg_") + op, probes_ratio_grid_cmp(op, r.thorough()));
+        }
+    });
     return m.run();
 }
